@@ -689,6 +689,10 @@ func c04c(c *Ctx, r *Report) {
 						if t.Op == "call" && strings.HasSuffix(t.Name, "Token).Is") && len(t.Args) == 2 && t.Args[1].Op == "const" {
 							return constant.MakeBool(constant.StringVal(t.Args[1].Val) == kk), true
 						}
+						// `switch p.current.Kind { case K: }`: the current token's kind is kk
+						if t.Op == "field" && t.Name == "Kind" {
+							return constant.MakeString(kk), true
+						}
 						return nil, false
 					}
 					p, err := selectPath(paths, val)
@@ -950,7 +954,7 @@ func c04c(c *Ctx, r *Report) {
 				}
 			}
 			if strings.HasSuffix(name, "ProductoinRule).SetPrecSymbol") && len(call.Args) == 1 {
-				pc := &pathCtx{info: info}
+				pc := pathCtxFor(fb)
 				if strings.Contains(pc.path(call.Args[0]), "PrecIdSym.Id.Name") {
 					setRuleOK = true
 				}
